@@ -16,10 +16,12 @@ impl Area for TimerArea {
             s(&["timer new", "timer start shared", "timer discard 0 thread", "timer start shared", "timer record 1", "timer start shared", "timer drop 2 thread", "timer closure", "timer get"]),
             s(&["timer new", "timer pobs", "timer pobs", "timer start local", "timer discard 0", "timer start local", "timer drop 1", "timer get", "timer pflush", "timer get"]),
             s(&["timer new", "timer pobs", "timer start local", "timer record 0", "timer get", "timer start shared", "timer pdrop 1", "timer start local", "timer pdrop 2", "timer get"]),
+            s(&["timer new tiny", "timer start local", "timer record 0", "timer pobs", "timer start local", "timer drop 1", "timer pflush", "timer get"]),
         ]
     }
     fn gen(&self, rng: &mut Rng, thorough: bool, stats: &mut Stats) -> Vec<String> {
-        let mut lines = vec!["timer new".to_string()];
+        // `tiny`: the only finite bound is -1, so every duration (and the parent's plain observations) lands in the implicit +Inf bucket only
+        let mut lines = vec![if rng.chance(30) { stats.hit("buckets:all-above-last-bound"); "timer new tiny".to_string() } else { "timer new".to_string() }];
         let n = rng.range(4, if thorough { 40 } else { 18 });
         let mut alive: Vec<(usize, bool)> = vec![]; let mut nt = 0;
         for _ in 0..n {
@@ -43,7 +45,7 @@ impl Area for TimerArea {
             let p: Vec<&str> = line.split(' ').collect();
             let on_thread = p.len() > 3 && p[3] == "thread";
             match p[1] {
-                "new" => { let hh = Histogram::with_opts(HistogramOpts::new("t", "h").buckets(vec![1e9])).unwrap(); parent = Some(hh.local()); h = Some(hh); timers.clear(); want = 0; pend = 0; started.clear(); sum_lo = 0.0; sum_hi = 0.0; pend_sum = 0.0; outs.push("ok".into()); continue; }
+                "new" => { let hh = Histogram::with_opts(HistogramOpts::new("t", "h").buckets(if p.len() > 2 && p[2] == "tiny" { vec![-1.0] } else { vec![1e9] })).unwrap(); parent = Some(hh.local()); h = Some(hh); timers.clear(); want = 0; pend = 0; started.clear(); sum_lo = 0.0; sum_hi = 0.0; pend_sum = 0.0; outs.push("ok".into()); continue; }
                 "start" => { started.push(std::time::Instant::now()); timers.push(Some(if p[2] == "local" { T::L(parent.as_ref().unwrap().start_timer()) } else { T::S(h.as_ref().unwrap().start_timer()) })); outs.push(format!("ok t={}", timers.len() - 1)); continue; }
                 "record" | "observe" | "discard" | "drop" | "pdrop" => {
                     let i: usize = p[2].parse().unwrap();
